@@ -309,6 +309,9 @@ class Program:
             done.append(n)
             new["inlined"] = list(done)
             self.bodies[root] = new
+            # the helper had this single call site: its stand-alone body is dead now and must not be counted twice by
+            # censuses over all bodies
+            self.__dict__.setdefault("dead_bodies", {})[n] = self.bodies.pop(n)
             # the crate entry of the body lists must see the new body as well
             for c in self.crates.values() if isinstance(getattr(self, "crates", None), dict) else []:
                 for key in ("bodies",):
